@@ -48,12 +48,14 @@ pub(super) struct SavedSim {
 impl SavedSim {
     /// Step the train sim forward and save appropriate state data in the movement
     pub fn update_movement(&mut self, movement: &mut Vec<SimpleState>) -> anyhow::Result<()> {
-        let condition = |train_sim: &SpeedLimitTrainSim| -> bool {
+        let condition = |train_sim: &SpeedLimitTrainSim, is_first_step: bool| -> bool {
             train_sim.state.offset < train_sim.offset_end() - uc::MI * 5.0
                 || (
                     train_sim.is_finished()
                     // this needs to be reconsidered.  The issue is determining when SpeedLimitTrainSim is finished.
-                        && train_sim.state.speed > si::Velocity::ZERO
+                    // A train still standing where it started (whole route shorter than the look-ahead above)
+                    // has to take a first step before its speed says anything.
+                        && (train_sim.state.speed > si::Velocity::ZERO || is_first_step)
                     // train_sim.state.offset
                     //     < train_sim.path_tpc.offset_end() + train_sim.state.length
                 )
@@ -62,7 +64,7 @@ impl SavedSim {
         movement.clear();
         movement.push(SimpleState::from_train_state(&self.train_sim.state));
         // TODO: Tighten up this bound using braking points.
-        while condition(&self.train_sim) {
+        while condition(&self.train_sim, movement.len() == 1) {
             self.train_sim.step()?;
             movement.push(SimpleState::from_train_state(&self.train_sim.state));
         }
